@@ -30,7 +30,10 @@ const c06Rule = "inputs: token soup (lexemes, keywords, partial lexemes, quotes,
 	"through the built binary: broken statements with a visible side effect before the error in all three run modes, and nesting bombs of 4*10^5 (quick) to 10^6 (thorough) levels; " +
 	"non-trivial = the input holds at least one of: string/comment open at the end, a literal of >= 19 digits, a byte >= 0x80 or NUL, nesting >= 50, or a parse error after >= 3 tokens; distinct by input text"
 
-var soupAlphabet = []string{"a", "b", "if", "else", "while", "for", "return", "yield", "true", "false", "1", "23", "4.5", "\"s\"", "\"", "\\", "\\\"", "\\n", ";", " ", " ", "\n", "\t", "(", ")", "{", "}", "[", "]", ",", ":", "+", "-", "*", "/", "=", "<", ">", "!", "&", "|", "#", "%", "~", "->", "<-", "==", ".", "é", "\xff", "@", "99999999999999999999", "x", "f(", "(a) ->", "\x00", "1.", "\r", "'", "9223372036854775807", "9223372036854775808", "$", "\u0080", "\u00a0", "\u2028", "\ufeff", "\U0010ffff", "\xc2", "\x7f"}
+var soupAlphabet = []string{"a", "b", "if", "else", "while", "for", "return", "yield", "true", "false", "1", "23", "4.5", "\"s\"", "\"", "\\", "\\\"", "\\n", ";", " ", " ", "\n", "\t", "(", ")", "{", "}", "[", "]", ",", ":", "+", "-", "*", "/", "=", "<", ">", "!", "&", "|", "#", "%", "~", "->", "<-", "==", ".", "é", "\xff", "@", "99999999999999999999", "x", "f(", "(a) ->", "\x00", "1.", "\r", "'", "9223372036854775807", "9223372036854775808", "$", "\u0080", "\u00a0", "\u2028", "\ufeff", "\U0010ffff", "\xc2", "\x7f",
+	// literals and names that make long messages: many bytes in few characters, and the other way round
+	"\"" + strings.Repeat("語", 40) + "\"", "\"" + strings.Repeat("é", 60) + "\"", "\"" + strings.Repeat("a", 300) + "\"", "\"" + strings.Repeat("語", 25) + strings.Repeat("a", 50) + "\"",
+	strings.Repeat("n", 200), strings.Repeat("7", 18), "\"" + strings.Repeat("\U0001F600", 31) + "\""}
 
 // boundaryRunes are characters at the edges of the encodings and character
 // classes (as text: some are not valid UTF-8 on purpose).
